@@ -44,6 +44,7 @@ ASSUMPTIONS = [
     "pickle round-trips a state dictionary faithfully (deep copy); torch weight files are outside this check (C11)",
     "the resuming process passes a fresh model object (evaluation counter 0), as a new process does",
     "FlowProposal.initialise / ImportanceFlowModel.resume (network construction, torch) are stubs",
+    "checkpoint_clock: datetime.datetime.now() returns arbitrary non-decreasing instants; safe_file_dump and the checkpoint callback are no-ops",
 ]
 OUTSIDE = ["real pickle / torch serialisation", "that a killed-and-resumed real run completes (bookkeeping of the interrupted iteration: C13)", "float32 agreement of re-derived densities"]
 
